@@ -219,3 +219,55 @@ LEMMAS = {
                bound='sizes 64*n, n in {0,1,3} (quick) / up to 70, hashAndFill n in {64,65,67} (quick) / up to 200', symbolic='seed state, buffer contents', stubs=['aesenc<>/aesdec<> := uninterpreted functions (A2/A3)'],
                outside='sizes beyond the bound (loop body is size independent)'),
 }
+
+# ---------------------------------------------------------------- A4: the soft-AES round routines of the JIT (assembly) under x86sem
+def run_A4(ctx, case):
+    from engine import x86sem
+    from engine.irsym import Mem
+    inv = case == 'dec'; q = Q(60); mod = Module(ctx['ll']['soft_aes']); it0 = Interp(mod)
+    tn = 'randomx_aes_lut_dec' if inv else 'randomx_aes_lut_enc'
+    forms = table_forms(Q(60), table_from_ir(it0, tn), inv, tn)
+    if any(c is None for r in forms for c in r):
+        q.failed.append(('table form (A1) does not hold', {})); q.sat += 1; q.n += 1; return result('A4', case, q, paths=1)
+    syms, text = ctx['asm']['syms'], ctx['asm']['text']
+    a = syms['soft_aes_dec' if inv else 'soft_aes_enc']; b = syms['randomx_program_soft_aes_end'] if inv else syms['soft_aes_dec']
+    base = syms['soft_aes_enc']; lut_cell = syms['aes_lut_dec' if inv else 'aes_lut_enc']
+    mem = Mem(); total = syms['aes_lut_dec'] + 8 - base
+    mem.alloc(total + 16, 'xcode')
+    for k in range(total): mem.store(Ptr('xcode', k), text[base + k], 1)
+    mem.alloc(4096, 'lut'); mem.store(Ptr('xcode', lut_cell - base), Ptr('lut', 0), 8)       # the JIT patches the table address into this cell (emit64 after the routines)
+    class FakeIt: pass
+    mem.symload['lut'] = lut_handler(None, q, tn, forms, inv)
+    mem.alloc(64, 'state'); mem.alloc(64, 'key'); mem.alloc(64, 'stack'); mem.store(Ptr('stack', 32), Ptr('caller', 0), 8)
+    st = [z3.BitVec('st%d' % i, 64) for i in range(2)]; ky = [z3.BitVec('key%d' % i, 64) for i in range(2)]
+    for i in range(2): mem.store(Ptr('state', 8 * i), st[i], 8); mem.store(Ptr('key', 8 * i), ky[i], 8)
+    m = x86sem.Machine(mem, 'xcode')
+    for r_ in range(16): m.gpr[r_] = z3.BitVec('g%d' % r_, 64)
+    keep = {r_: m.gpr[r_] for r_ in range(8, 16)}
+    m.gpr[7] = Ptr('state', 0); m.gpr[6] = Ptr('key', 0); m.gpr[4] = Ptr('stack', 32)
+    try:
+        r = m.run(a - base, max_steps=200)
+    except (x86sem.Undecodable, x86sem.Fault, OOB) as e:
+        q.n += 1; q.sat += 1; q.failed.append(('soft_aes_%s routine does not execute: %s' % (case, e), {})); return result('A4', case, q, paths=1)
+    ok = r[0] == 'ret' and isinstance(r[1], Ptr) and r[1].obj == 'caller'; q.n += 1; q.unsat += ok; q.sat += (not ok)
+    if not ok: q.failed.append(('routine does not return to its caller', {}))
+    got = v128_bytes([mem.load(Ptr('state', 0), 8), mem.load(Ptr('state', 8), 8)])
+    exp = (ref.aesdec if inv else ref.aesenc)(v128_bytes(st), v128_bytes(ky))
+    for i in range(16):
+        g = z3.simplify(got[i] != exp[i])
+        if z3.is_false(g): q.n += 1; q.unsat += 1
+        else: q.check([], g, 'soft_aes_%s (assembly): state byte %d == FIPS-197 %sround' % (case, i, 'inverse ' if inv else ''))
+    bad = [x for x in m.written_gpr if x not in (0, 1, 2, 3, 4, 5, 6)]; q.n += 1; q.unsat += (not bad); q.sat += bool(bad)
+    if bad: q.failed.append(('routine clobbers registers %s beyond rax,rbx,rcx,rdx,rbp,rsi (which the loop-store template saves)' % bad, {}))
+    ok = isinstance(m.gpr[7], Ptr) and m.gpr[7].obj == 'state' and m.gpr[7].off == 0 and isinstance(m.gpr[4], Ptr) and m.gpr[4].off == 40; q.n += 1; q.unsat += ok; q.sat += (not ok)
+    if not ok: q.failed.append(('rdi / rsp not preserved', {}))
+    kb = [mem.load(Ptr('key', 8 * i), 8) for i in range(2)]; ok = all((not is_c(x)) and x.eq(y) for x, y in zip(kb, ky)); q.n += 1; q.unsat += ok; q.sat += (not ok)
+    if not ok: q.failed.append(('key block modified', {}))
+    for (kd, obj, off, nb) in m.accesses:
+        if obj not in ('state', 'key', 'lut', 'xcode', 'stack'): q.failed.append(('access to %s' % obj, {})); q.sat += 1
+    extent_checks(q, [], mem, 'soft_aes_%s' % case)
+    return result('A4', case, q, paths=1, steps=m.steps, detail='%d x86 instructions' % m.steps)
+
+LEMMAS['A4'] = dict(jobs=lambda ctx: ['enc', 'dec'], run=run_A4, units=['soft_aes'], asm=True, functions=['program_soft_aes_enc.inc', 'program_soft_aes_dec.inc (assembled)', 'randomx_aes_lut_enc/dec'],
+    doc='the JIT\'s soft-AES round routines == one FIPS-197 round / inverse round on [rdi] with round key [rsi] for all 2^256 inputs; clobber only rax,rbx,rcx,rdx,rbp,rsi; return to the caller (the contract J3 assumes)',
+    bound='all (state, key)', symbolic='state, key, registers', stubs=['x86sem', 'table load := column expression proved by A1 over the S-box UF'])
